@@ -593,7 +593,7 @@ class Origin:
         return "Origin(%s %s bb%s proj=%s%s)" % (self.kind, self.what, self.block, "".join(self.proj), " NEG" if self.neg else "")
 
 
-def origins(body, start, extra_transparent=(), max_nodes=4000, through_fields=True, visited=None):
+def origins(body, start, extra_transparent=(), max_nodes=4000, through_fields=True, visited=None, taint=False):
     """Backward def-use closure of an operand / place / local inside one body.
 
     Returns a list of Origin.  Flow-insensitive over locals (MIR temporaries are
@@ -669,6 +669,10 @@ def origins(body, start, extra_transparent=(), max_nodes=4000, through_fields=Tr
                 if idxs is None:
                     o = Origin("call", call.name, d[1], proj, neg, call=call)
                     out[o.key()] = o
+                    if taint:
+                        # taint mode: the result may derive from any argument
+                        for a in call.args:
+                            push_op(a, (), neg)
                 else:
                     # keep a record that we passed through it
                     for i in idxs:
@@ -715,6 +719,9 @@ def origins(body, start, extra_transparent=(), max_nodes=4000, through_fields=Tr
                 elif k == "bin":
                     o = Origin("bin", rv["op"], b, rest, neg, extra=rv)
                     out[o.key()] = o
+                    if taint:
+                        push_op(rv["a"], (), neg)
+                        push_op(rv["b"], (), neg)
                 elif k == "discr":
                     o = Origin("discr", rv["ty"], b, rest, neg, extra=rv)
                     out[o.key()] = o
@@ -778,6 +785,38 @@ def place_origin_fields(body, start, **kw):
         if o.kind in ("place", "param") and o.proj:
             res.add(tuple(p[1:] for p in o.proj if p.startswith(".")))
     return res
+
+
+PANIC_CALLS = [
+    ("unwrap", "re:^core::(option::Option|result::Result)::(unwrap|expect|unwrap_err|expect_err)$"),
+    ("panic", "re:^core::panicking::(panic|panic_fmt|panic_explicit|unreachable_display|panic_display|assert_failed|panic_nounwind)"),
+    ("panic", "re:^std::rt::(begin_panic|panic_fmt)"),
+    ("index", "re:Index(Mut)?<.*>>::index(_mut)?$"),
+    ("index", "re:^core::slice::index::"),
+    ("index", "core::ops::index::Index::index"),
+    ("index", "core::ops::index::IndexMut::index_mut"),
+    ("buf", "re:^bytes::buf::buf_impl::Buf::(get_[a-z0-9_]+|advance|copy_to_slice|copy_to_bytes|split_to)$"),
+    ("buf", "re:bytes::buf::buf_impl::Buf>::(get_[a-z0-9_]+|advance|copy_to_slice|copy_to_bytes)$"),
+    ("buf", "re:^bytes::bytes_mut::BytesMut::(split_to|split_off|advance)"),
+    ("alloc", "re:^alloc::vec::from_elem$"),
+]
+
+
+def panic_sites(body, include_expansion=True):
+    """panic-capable operations in a body: list of dict(kind, block, what, ops, span, exp)"""
+    out = []
+    for c in body.calls():
+        for kind, pat in PANIC_CALLS:
+            if c.is_(pat):
+                out.append({"kind": kind, "block": c.block, "what": c.name, "ops": c.args, "span": c.span, "exp": c.exp, "call": c})
+                break
+    for b, blk in enumerate(body.blocks):
+        t = blk["term"]
+        if t["k"] == "assert":
+            out.append({"kind": "assert:" + t["msg"], "block": b, "what": t["msg"], "ops": [t["cond"]], "span": t["span"], "exp": t.get("exp", False), "call": None})
+    if not include_expansion:
+        out = [o for o in out if not o["exp"] or o["kind"] == "panic"]
+    return out
 
 
 # --------------------------------------------------------------------------
